@@ -1959,7 +1959,7 @@ MUTANTS = [
        "      assert hasattr( s, name ) or True, f\"Invalid add_component call", 'R-C14-reassign'),
     _m('deleted-name-still-parses', COMP, 'x._dsl.full_name = "<deleted>"+x._dsl.full_name', 'x._dsl.full_name = "deleted_"+x._dsl.full_name',
        'R-C14-name-storage'),
-    _m('reroot-loses-the-dot', COMP, '"top"+repr(x)[1:]', '"top"+repr(x)[2:]', 'R-C14-api'),
+    _m('reroot-loses-the-dot', COMP, '"top"+repr(x)[1:]', '"top"+repr(x)[2:]', 'R-C14-api', count='first'),
     _m('field-my-indices-dropped', CONN, "            xd._my_indices = indices\n\n          else:", "\n          else:", 'R-C14'),
     _m('field-queue-appendleft', CONN, "Q.append( ( v, indices+[i], x, True ) )", "Q.appendleft( ( v, indices+[i], x, True ) )",
        'R-C14-name-storage'),
